@@ -24,7 +24,7 @@ Proof. split; reflexivity. Qed.
 Example tie_client_order : c20_client_order = [1; 2; 1; 3; 4].
 Proof. reflexivity. Qed.
 
-(** the recreate path (f8c5e31): [DWantLock] = the registration lock, release deferred ->
+(** the recreate path (f0aaa6b): [DWantLock] = the registration lock, release deferred ->
     [DLoadReg]/[DLoadKey] = loadAccount -> absent: nothing to delete ([DUnlock true]) -> any other
     load error: give up ([DUnlock false]) -> another Location: nothing to delete ([DUnlock true]) ->
     [DelReg]/[DelKey] = deleteAccountLocally, which nothing else in the package calls; then, in
